@@ -13,6 +13,7 @@ CONSTANTS
   PNames = {"", "a", "A"}
   SpawnIn = {"worldspawn", "WorldSpawn", "c"}
   SpawnQuiet = TRUE
+  SpawnNames = {"A"}
 INVARIANT Agree
 INVARIANT SpawnRule
 INVARIANT SearchAgree
